@@ -21,6 +21,16 @@ class Poly:
     def __init__(self, t=None):
         self.t = t or {}
 
+    # variable indices are process-local (forked workers number new variables independently): pickle by name
+    def __getstate__(self):
+        return [(tuple((_names[v], e) for v, e in m), c) for m, c in self.t.items()]
+
+    def __setstate__(self, st):
+        self.t = {}
+        for m, c in st:
+            mm = tuple(sorted((var_index(n), e) for n, e in m))
+            self.t[mm] = self.t.get(mm, 0) + c
+
     @staticmethod
     def const(c):
         return Poly({(): c} if c else {})
